@@ -144,6 +144,14 @@ def run(ck):
          'xy': [[0., 0.], [3., -4.], [4., 3.], [7., -1.]], 'wxy': None, 'wuv': None},
     ]
     problems = []
+    if ck.replay_in:
+        # replay of one recorded case: ./check C06 --replay replays/C06-xxxx.json
+        import json
+        rp = json.load(open(ck.replay_in))
+        pr = dict(rp['problem'])
+        pr.update(stream='replay', style='replay', wmode='replay', n=len(pr['uv']), noise=0)
+        corpus, N = [], 0
+        problems.append(pr)
     for c in corpus:
         c.update(stream='corpus', style='corpus', wmode='corpus', n=len(c['uv']), noise=0)
         problems.append(c)
